@@ -519,7 +519,7 @@ async def run_prog(i, bi, event, prog, sync):
                 except Exception:
                     pass
         elif op == 'dispatch_with_parent':
-            par = RT.evobj.get(ins[4]) if ins[4] is not None else None
+            par = event if ins[4] == 'self' else (RT.evobj.get(ins[4]) if ins[4] is not None else None)
             ev = mk_event(ins[2], parent=par)
             try:
                 slots[ins[3]] = RT.buses[ins[1]].dispatch(ev)
